@@ -26,7 +26,9 @@ import (
 const Rule = "cases = (grammar, iteration-shuffle seed, queries) drawn from VERIF_SEED: random valid grammars " +
 	"(<=5 non-terminals, <=3 terminals, bodies <=4) from five mixes (default, epsilon-heavy chains, unit/left-recursive, " +
 	"with unreachable and unproductive non-terminals, near-LL(1)); queries: nullable, FIRST of every symbol string of " +
-	"length <=3 (sampled above 160 strings), FOLLOW of every non-terminal, ll1, table, unchanged; non-trivial = the grammar " +
+	"length <=3 (sampled above 160 strings), FOLLOW of every non-terminal, ll1, table, unchanged; plus three families: " +
+	"bodies with a repeated non-terminal, epsilon-chains of depth 3-6 each run under 12 iteration orders, and cases that change " +
+	"the same *CFG object in place (prod/unprod lines between rounds of queries); non-trivial = the grammar " +
 	"has a nullable non-terminal, a left-corner cycle, or an unreachable/unproductive non-terminal; distinct = distinct (header, op list)"
 
 // ---------------------------------------------------------------- independent oracle
@@ -429,7 +431,7 @@ func replayLeftmost(g gx.G, prods []string, w []string) string {
 		form = nf
 	}
 	if strings.Join(form, " ") != strings.Join(w, " ") {
-		return fmt.Sprintf("the emitted productions derive %v, not the input %v", form, w)
+		return fmt.Sprintf("the emitted productions derive %s, not the input %s", short(form), short(w))
 	}
 	return ""
 }
@@ -446,26 +448,13 @@ func Exec(c hx.Case) hx.Result {
 		}
 	}
 	tags := map[string]bool{}
-	G, _ := gx.ParseLines(c.Ops)
-	// NewCFG keeps sets: normalise the description the same way for the oracle
-	{
-		seen := map[string]bool{}
-		var ps []gx.P
-		for _, p := range G.Prods {
-			if k := prodKey(p.Head, p.Body); !seen[k] {
-				seen[k] = true
-				ps = append(ps, p)
-			}
-		}
-		G.Prods = ps
-	}
-	if s, err := strconv.ParseInt(hx.HeaderGet(c.Header, "shuffle"), 10, 64); err == nil {
-		set.VerifSetShuffleSeed(s)
-		symboltable.VerifSetShuffleSeed(s + 1)
-	}
-	cfg := G.ToCFG()
-	clone := cfg.Clone()
-	valid := cfg.Verify() == nil
+	// The grammar is built up by the description lines.  The *grammar.CFG object is created at the first
+	// query; description lines after that change the SAME object in place (Productions.Add/Remove, …), so
+	// anything a parser or an analysis kept from an earlier state of the object shows.
+	var G gx.G
+	var cfg, clone *grammar.CFG
+	dirty := true
+	valid := false
 	var orc *Oracle
 	var langK strset
 	langKk := -1
@@ -474,43 +463,139 @@ func Exec(c hx.Case) hx.Result {
 	var tableErr error
 	var table *predictive.ParsingTable
 	tableBuilt := false
+	mutations := 0
+	if s, err := strconv.ParseInt(hx.HeaderGet(c.Header, "shuffle"), 10, 64); err == nil {
+		set.VerifSetShuffleSeed(s)
+		symboltable.VerifSetShuffleSeed(s + 1)
+	}
+	mkProd := func(head string, body []string) *grammar.Production {
+		b := grammar.String[grammar.Symbol]{}
+		for _, x := range body {
+			if G.IsNonTerm(x) {
+				b = append(b, grammar.NonTerminal(x))
+			} else {
+				b = append(b, grammar.Terminal(x))
+			}
+		}
+		return &grammar.Production{Head: grammar.NonTerminal(head), Body: b}
+	}
+	// applyDesc folds one description line into G (and into the live object); false: not a description line
+	applyDesc := func(f []string) bool {
+		switch {
+		case f[0] == "terms":
+			for _, t := range f[1:] {
+				if !contains(G.Terms, t) {
+					G.Terms = append(G.Terms, t)
+				}
+				if cfg != nil {
+					cfg.Terminals.Add(grammar.Terminal(t))
+				}
+			}
+		case f[0] == "nonterms":
+			for _, n := range f[1:] {
+				if !contains(G.NonTerms, n) {
+					G.NonTerms = append(G.NonTerms, n)
+				}
+				if cfg != nil {
+					cfg.NonTerminals.Add(grammar.NonTerminal(n))
+				}
+			}
+		case f[0] == "start" && len(f) == 2:
+			G.Start = f[1]
+			if cfg != nil {
+				cfg.Start = grammar.NonTerminal(f[1])
+			}
+		case f[0] == "prod" && len(f) >= 3 && f[2] == ":":
+			body := append([]string{}, f[3:]...)
+			k := prodKey(f[1], body)
+			dup := false
+			for _, p := range G.Prods {
+				if prodKey(p.Head, p.Body) == k {
+					dup = true
+				}
+			}
+			if !dup {
+				G.Prods = append(G.Prods, gx.P{Head: f[1], Body: body})
+			}
+			if cfg != nil {
+				cfg.Productions.Add(mkProd(f[1], body))
+			}
+		case f[0] == "unprod" && len(f) >= 3 && f[2] == ":":
+			body := append([]string{}, f[3:]...)
+			k := prodKey(f[1], body)
+			var ps []gx.P
+			for _, p := range G.Prods {
+				if prodKey(p.Head, p.Body) != k {
+					ps = append(ps, p)
+				}
+			}
+			G.Prods = ps
+			if cfg != nil {
+				cfg.Productions.Remove(mkProd(f[1], body))
+			}
+		default:
+			return false
+		}
+		if cfg != nil {
+			mutations++
+		}
+		dirty = true
+		return true
+	}
 	ensureTable := func() {
 		if !tableBuilt {
 			table, tableErr = predictive.BuildParsingTable(cfg)
 			tableBuilt = true
 		}
 	}
-	if valid {
-		orc = NewOracle(G)
-		if len(orc.Nullable) > 0 {
-			tags["nullable"] = true
+	// setup (re)computes everything that depends on the grammar's current state
+	setup := func() {
+		if cfg == nil {
+			cfg = G.ToCFG()
 		}
-		for _, p := range G.Prods {
-			if len(p.Body) > 0 && orc.nullableStr(p.Body) {
-				tags["eps-chain"] = true
+		dirty = false
+		clone = cfg.Clone()
+		valid = cfg.Verify() == nil
+		orc, langK, langKk, first, follow, table, tableErr, tableBuilt = nil, nil, -1, nil, nil, nil, nil, false
+		if valid {
+			orc = NewOracle(G)
+			if len(orc.Nullable) > 0 {
+				tags["nullable"] = true
 			}
-			if len(p.Body) > 0 && p.Body[0] == p.Head {
-				tags["left-recursive"] = true
+			for _, p := range G.Prods {
+				if len(p.Body) > 0 && orc.nullableStr(p.Body) {
+					tags["eps-chain"] = true
+				}
+				if len(p.Body) > 0 && p.Body[0] == p.Head {
+					tags["left-recursive"] = true
+				}
+				seen := map[string]bool{}
+				for _, x := range p.Body {
+					if G.IsNonTerm(x) && seen[x] {
+						tags["repeated-nt-in-body"] = true
+					}
+					seen[x] = true
+				}
 			}
-		}
-		if !orc.AllReach {
-			tags["unreachable-nt"] = true
-		}
-		if !orc.Reduced && orc.AllReach {
-			tags["unproductive-nt"] = true
-		}
-		for _, n := range G.NonTerms {
-			if !orc.Prod[n] {
+			if !orc.AllReach {
+				tags["unreachable-nt"] = true
+			}
+			if !orc.Reduced && orc.AllReach {
 				tags["unproductive-nt"] = true
 			}
-		}
-		if orc.ConflictFree() {
-			tags["ll1"] = true
+			for _, n := range G.NonTerms {
+				if !orc.Prod[n] {
+					tags["unproductive-nt"] = true
+				}
+			}
+			if orc.ConflictFree() {
+				tags["ll1"] = true
+			} else {
+				tags["not-ll1"] = true
+			}
 		} else {
-			tags["not-ll1"] = true
+			tags["invalid-grammar"] = true
 		}
-	} else {
-		tags["invalid-grammar"] = true
 	}
 	maxWord := 0
 	for _, op := range c.Ops {
@@ -519,9 +604,17 @@ func Exec(c hx.Case) hx.Result {
 			maxWord = len(f) - 1
 		}
 	}
+	// membership oracle: the exact bounded language for short inputs, an Earley recogniser for long ones
 	inLang := func(w []string) bool {
+		if len(w) > 8 {
+			tags["long-input"] = true
+			return Earley(G, w)
+		}
 		if langKk < 0 {
 			langKk = maxWord
+			if langKk > 8 {
+				langKk = 8
+			}
 			langK = G.LangK(langKk)
 		}
 		return langK[strings.Join(w, " ")]
@@ -534,10 +627,12 @@ func Exec(c hx.Case) hx.Result {
 			res.Outs = append(res.Outs, "bad-op")
 			continue
 		}
-		switch f[0] {
-		case "terms", "nonterms", "start", "prod":
+		if applyDesc(f) {
 			res.Outs = append(res.Outs, "ok")
 			continue
+		}
+		if dirty {
+			setup()
 		}
 		out := "bad-op"
 		hung := false
@@ -708,9 +803,16 @@ func Exec(c hx.Case) hx.Result {
 							}
 						}
 					}
-					out = "ok conflicts=[" + strings.Join(confl, " ") + "] cells=[" + strings.Join(cells, " ") + "]"
-					if (tableErr != nil) != (len(confl) > 0) {
-						bad(i, "BuildParsingTable error=%v but cells with more than one production: %v", tableErr != nil, confl)
+					// the conflicts in the order Conflicts() reports them (the error list of BuildParsingTable)
+					reported := conflictOrder(tableErr)
+					out = "ok conflicts=[" + strings.Join(reported, " ") + "] cells=[" + strings.Join(cells, " ") + "]"
+					{
+						a, b := append([]string{}, confl...), append([]string{}, reported...)
+						sort.Strings(a)
+						sort.Strings(b)
+						if strings.Join(a, " ") != strings.Join(b, " ") {
+							bad(i, "Conflicts() reports %v, the cells with more than one production are %v", reported, confl)
+						}
 					}
 					trows, tcols := predictive.VerifRowsAndColumns(table)
 					if len(trows) != len(rows) || len(tcols) != len(cols) {
@@ -753,7 +855,7 @@ func Exec(c hx.Case) hx.Result {
 						sentences++
 					} else {
 						nonSentences++
-						for k := 0; k < len(w); k++ {
+						for k := 0; k < len(w) && len(w) <= 8; k++ {
 							if inLang(w[:k]) {
 								trailing++
 								break
@@ -761,27 +863,27 @@ func Exec(c hx.Case) hx.Result {
 						}
 					}
 					if accepted != member {
-						bad(i, "%s %v: accepted=%v but sentence of G=%v", f[0], w, accepted, member)
+						bad(i, "%s %s: accepted=%v but sentence of G=%v", f[0], short(w), accepted, member)
 						return
 					}
 					if accepted && f[0] == "parse" {
 						if msg := replayLeftmost(G, prods, w); msg != "" {
-							bad(i, "parse %v: %s", w, msg)
+							bad(i, "parse %s: %s", short(w), msg)
 						}
 					}
 					if accepted && f[0] == "ast" {
 						var y, pre []string
 						treeYield(root, &y)
 						if strings.Join(y, " ") != strings.Join(w, " ") {
-							bad(i, "ast %v: the yield of the tree is %v", w, y)
+							bad(i, "ast %s: the yield of the tree is %s", short(w), short(y))
 						}
 						leaf := 0
 						if in, ok := root.(*parser.InternalNode); !ok || string(in.NonTerminal) != G.Start {
-							bad(i, "ast %v: the root is not the start symbol", w)
+							bad(i, "ast %s: the root is not the start symbol", short(w))
 						} else if msg := checkTree(root, G, &pre, &leaf); msg != "" {
-							bad(i, "ast %v: %s", w, msg)
+							bad(i, "ast %s: %s", short(w), msg)
 						} else if msg := replayLeftmost(G, pre, w); msg != "" {
-							bad(i, "ast %v: pre-order productions: %s", w, msg)
+							bad(i, "ast %s: pre-order productions: %s", short(w), msg)
 						}
 					}
 				}
@@ -829,6 +931,12 @@ func Exec(c hx.Case) hx.Result {
 	if trailing > 0 {
 		tags["sentence-plus-trailing"] = true
 	}
+	if mutations > 0 {
+		tags["grammar-changed-in-place"] = true
+	}
+	if maxWord >= 1000 {
+		tags["deep-nesting"] = true
+	}
 	if hx.HeaderGet(c.Header, "comp") == "predictive" {
 		res.Nontrivial = valid && tags["ll1"] && sentences > 0 && nonSentences > 0 && trailing > 0
 	} else {
@@ -839,6 +947,102 @@ func Exec(c hx.Case) hx.Result {
 	}
 	sort.Strings(res.Tags)
 	return res
+}
+
+// conflictOrder lists the cells named by the errors of BuildParsingTable, in the order reported.
+func conflictOrder(err error) []string {
+	if err == nil {
+		return nil
+	}
+	var out []string
+	me, ok := err.(interface{ Unwrap() []error })
+	if !ok {
+		return []string{"?" + err.Error()}
+	}
+	for _, e := range me.Unwrap() {
+		msg := e.Error()
+		const pre = "multiple productions at M["
+		j := strings.Index(msg, "]:")
+		if !strings.HasPrefix(msg, pre) || j < 0 {
+			out = append(out, "?"+msg)
+			continue
+		}
+		inner := msg[len(pre):j]
+		k := strings.Index(inner, ", ")
+		if k < 0 {
+			out = append(out, "?"+inner)
+			continue
+		}
+		a := inner[k+2:]
+		if a != "$" {
+			if u, err := strconv.Unquote(a); err == nil {
+				a = u
+			}
+		}
+		out = append(out, inner[:k]+"/"+a)
+	}
+	return out
+}
+
+// Earley decides w ∈ L(g) (any context-free grammar, ε-productions included); independent of the library.
+func Earley(g gx.G, w []string) bool {
+	type item struct{ p, dot, orig int }
+	prods := append([]gx.P{{Head: "\x00start", Body: []string{g.Start}}}, g.Prods...)
+	nullable := g.Nullable()
+	byHead := map[string][]int{}
+	for i, p := range prods {
+		byHead[p.Head] = append(byHead[p.Head], i)
+	}
+	n := len(w)
+	sets := make([]map[item]bool, n+1)
+	lists := make([][]item, n+1)
+	add := func(k int, it item) {
+		if !sets[k][it] {
+			sets[k][it] = true
+			lists[k] = append(lists[k], it)
+		}
+	}
+	for k := range sets {
+		sets[k] = map[item]bool{}
+	}
+	add(0, item{0, 0, 0})
+	for k := 0; k <= n; k++ {
+		for idx := 0; idx < len(lists[k]); idx++ {
+			it := lists[k][idx]
+			body := prods[it.p].Body
+			if it.dot < len(body) {
+				x := body[it.dot]
+				if g.IsNonTerm(x) {
+					for _, q := range byHead[x] {
+						add(k, item{q, 0, k})
+					}
+					if nullable[x] {
+						add(k, item{it.p, it.dot + 1, it.orig})
+					}
+				} else if k < n && w[k] == x {
+					add(k+1, item{it.p, it.dot + 1, it.orig})
+				}
+			} else {
+				h := prods[it.p].Head
+				for j := 0; j < len(lists[it.orig]); j++ {
+					pt := lists[it.orig][j]
+					b := prods[pt.p].Body
+					if pt.dot < len(b) && b[pt.dot] == h {
+						add(k, item{pt.p, pt.dot + 1, pt.orig})
+					}
+				}
+			}
+		}
+	}
+	return sets[n][item{0, 1, 0}]
+}
+
+// short renders a token string, abbreviating long ones.
+func short(w []string) string {
+	if len(w) <= 16 {
+		return fmt.Sprint(w)
+	}
+	return fmt.Sprintf("[%s ... %s] (%d tokens)", strings.Join(w[:6], " "), strings.Join(w[len(w)-4:], " "), len(w))
 }
 
 func contains(xs []string, x string) bool {
@@ -1025,6 +1229,119 @@ func Queries(r *hx.Rand, g gx.G, maxStrings int) []string {
 	return ops
 }
 
+// WithRepeats rewrites some bodies so that one non-terminal occurs twice in them, with different
+// neighbours (what a per-occurrence FOLLOW rule has to get right).
+func WithRepeats(r *hx.Rand, g gx.G) gx.G {
+	seen := map[string]bool{}
+	for _, p := range g.Prods {
+		seen[prodKey(p.Head, p.Body)] = true
+	}
+	n := r.Range(1, 3)
+	for k := 0; k < n; k++ {
+		x := hx.Pick(r, g.NonTerms)
+		t1, t2 := hx.Pick(r, g.Terms), hx.Pick(r, g.Terms)
+		var body []string
+		switch r.Intn(5) {
+		case 0:
+			body = []string{x, t1, x, t2}
+		case 1:
+			body = []string{x, x}
+		case 2:
+			body = []string{t1, x, x}
+		case 3:
+			body = []string{x, t1, x}
+		default:
+			body = []string{x, hx.Pick(r, g.NonTerms), x, t2}
+		}
+		p := gx.P{Head: hx.Pick(r, g.NonTerms), Body: body}
+		if !seen[prodKey(p.Head, p.Body)] {
+			seen[prodKey(p.Head, p.Body)] = true
+			g.Prods = append(g.Prods, p)
+		}
+		if r.Chance(1, 2) {
+			e := gx.P{Head: x}
+			if !seen[prodKey(e.Head, e.Body)] {
+				seen[prodKey(e.Head, e.Body)] = true
+				g.Prods = append(g.Prods, e)
+			}
+		}
+	}
+	return g
+}
+
+// EpsChain is a grammar in which ε reaches S only through a chain of depth d of all-nullable bodies
+// (N1 -> N2 [N2], ..., Nd -> ε), with terminals behind the nullable prefixes.
+func EpsChain(r *hx.Rand, d int) gx.G {
+	g := gx.G{Terms: []string{"a", "b", "c"}, Start: "S", NonTerms: []string{"S"}}
+	for i := 1; i <= d; i++ {
+		g.NonTerms = append(g.NonTerms, fmt.Sprintf("N%d", i))
+	}
+	n := func(i int) string { return fmt.Sprintf("N%d", i) }
+	g.Prods = append(g.Prods, gx.P{Head: "S", Body: []string{n(1), "a"}})
+	if r.Chance(1, 2) {
+		g.Prods = append(g.Prods, gx.P{Head: "S", Body: []string{n(1), n(r.Range(1, d)), "b"}})
+	}
+	if r.Chance(1, 2) {
+		g.Prods = append(g.Prods, gx.P{Head: "S", Body: []string{n(1)}})
+	}
+	for i := 1; i < d; i++ {
+		switch r.Intn(3) {
+		case 0:
+			g.Prods = append(g.Prods, gx.P{Head: n(i), Body: []string{n(i + 1)}})
+		case 1:
+			g.Prods = append(g.Prods, gx.P{Head: n(i), Body: []string{n(i + 1), n(i + 1)}})
+		default:
+			g.Prods = append(g.Prods, gx.P{Head: n(i), Body: []string{n(i + 1), n(r.Range(i+1, d))}})
+		}
+		if r.Chance(1, 3) {
+			g.Prods = append(g.Prods, gx.P{Head: n(i), Body: []string{hx.Pick(r, g.Terms), n(i)}})
+		}
+	}
+	g.Prods = append(g.Prods, gx.P{Head: n(d)})
+	if r.Chance(1, 2) {
+		g.Prods = append(g.Prods, gx.P{Head: n(d), Body: []string{"c"}})
+	}
+	// shuffle the production list so that declaration order does not help
+	for i := len(g.Prods) - 1; i > 0; i-- {
+		j := r.Intn(i + 1)
+		g.Prods[i], g.Prods[j] = g.Prods[j], g.Prods[i]
+	}
+	return g
+}
+
+// RandomProd draws one production over the grammar's symbols that the grammar does not have yet.
+func RandomProd(r *hx.Rand, g gx.G) (gx.P, bool) {
+	for try := 0; try < 20; try++ {
+		p := gx.P{Head: hx.Pick(r, g.NonTerms)}
+		for l := r.Intn(4); l > 0; l-- {
+			if r.Chance(2, 5) {
+				p.Body = append(p.Body, hx.Pick(r, g.NonTerms))
+			} else {
+				p.Body = append(p.Body, hx.Pick(r, g.Terms))
+			}
+		}
+		dup := false
+		for _, q := range g.Prods {
+			if prodKey(q.Head, q.Body) == prodKey(p.Head, p.Body) {
+				dup = true
+			}
+		}
+		if !dup {
+			return p, true
+		}
+	}
+	return gx.P{}, false
+}
+
+func descLine(kind string, p gx.P) string {
+	return strings.TrimRight(kind+" "+p.Head+" : "+strings.Join(p.Body, " "), " ")
+}
+
+// queriesOnly is Queries without the description lines.
+func queriesOnly(r *hx.Rand, g gx.G, maxStrings int) []string {
+	return Queries(r, g, maxStrings)[len(g.Lines()):]
+}
+
 func Main(run *hx.Run) {
 	run.Stats.Rule = Rule
 	for _, f := range hx.CorpusFiles("C10") {
@@ -1038,7 +1355,7 @@ func Main(run *hx.Run) {
 	cross, crossExact := 0, 0
 	for _, name := range names {
 		r := run.R.Fork(name)
-		n := run.Scale(70)
+		n := run.Scale(250)
 		for k := 0; k < n; k++ {
 			g := gx.Random(r, mixes[name])
 			if name == "non-reduced" && r.Chance(1, 2) {
@@ -1068,6 +1385,52 @@ func Main(run *hx.Run) {
 					})
 				}
 			}
+		}
+	}
+	// repeated non-terminals inside one body
+	{
+		r := run.R.Fork("repeats")
+		for k := 0; k < run.Scale(250); k++ {
+			g := WithRepeats(r, gx.Random(r, mixes[names[r.Intn(len(names))]]))
+			c := hx.Case{Header: fmt.Sprintf("comp=analysis mix=repeats shuffle=%d", r.Intn(1<<30)), Ops: Queries(r, g, 60)}
+			run.Do("analysis", c, Exec)
+		}
+	}
+	// ε-chains of depth 3..6, each under many iteration orders
+	{
+		r := run.R.Fork("eps-chain-family")
+		for k := 0; k < run.Scale(30); k++ {
+			g := EpsChain(r, r.Range(3, 6))
+			ops := Queries(r, g, 40)
+			for sd := 0; sd < 12; sd++ {
+				c := hx.Case{Header: fmt.Sprintf("comp=analysis mix=eps-chain-family shuffle=%d", r.Intn(1<<30)), Ops: ops}
+				run.Do("analysis", c, Exec)
+			}
+		}
+	}
+	// the same *CFG object changed in place between two rounds of queries
+	{
+		r := run.R.Fork("in-place")
+		for k := 0; k < run.Scale(120); k++ {
+			g := gx.Random(r, mixes[names[r.Intn(len(names))]])
+			ops := Queries(r, g, 30)
+			g2 := g
+			for round := 0; round < 2; round++ {
+				p, ok := RandomProd(r, g2)
+				if !ok {
+					break
+				}
+				g2.Prods = append(append([]gx.P{}, g2.Prods...), p)
+				ops = append(ops, descLine("prod", p))
+				ops = append(ops, queriesOnly(r, g2, 30)...)
+				if r.Chance(1, 2) {
+					ops = append(ops, descLine("unprod", p))
+					g2.Prods = g2.Prods[:len(g2.Prods)-1]
+					ops = append(ops, queriesOnly(r, g2, 20)...)
+				}
+			}
+			c := hx.Case{Header: fmt.Sprintf("comp=analysis mix=in-place shuffle=%d", r.Intn(1<<30)), Ops: ops}
+			run.Do("analysis", c, Exec)
 		}
 	}
 	if run.Thorough() {
